@@ -54,6 +54,12 @@ impl Operand {
             "u64" => Value::from(s.parse::<u64>().unwrap()),
             "i128" => Value::from(s.parse::<i128>().unwrap()),
             "u128" => Value::from(s.parse::<u128>().unwrap()),
+            // the same host integers handed over through the serde bridge (what `Serde(x)`, serialised
+            // structs and `context!`-free embedders use): a different constructor per width
+            "serde_i64" => Value::from(minijinja::value::Serde(s.parse::<i64>().unwrap())),
+            "serde_u64" => Value::from(minijinja::value::Serde(s.parse::<u64>().unwrap())),
+            "serde_i128" => Value::from(minijinja::value::Serde(s.parse::<i128>().unwrap())),
+            "serde_u128" => Value::from(minijinja::value::Serde(s.parse::<u128>().unwrap())),
             _ => unreachable!(),
         }
     }
@@ -150,6 +156,16 @@ pub fn operands(tier: Tier) -> Vec<Operand> {
         if s.parse::<u128>().is_ok() {
             forms.push("u128");
         }
+        let n_native = forms.len();
+        let serde_forms: Vec<&'static str> = forms[lits.len()..n_native]
+            .iter()
+            .map(|f| match *f {
+                "i64" => "serde_i64",
+                "u64" => "serde_u64",
+                "i128" => "serde_i128",
+                _ => "serde_u128",
+            })
+            .collect();
         if tier == Tier::Quick {
             // quick: literal + narrowest + widest representation
             let narrow = forms[lits.len()];
@@ -159,6 +175,10 @@ pub fn operands(tier: Tier) -> Vec<Operand> {
             if wide != narrow {
                 forms.push(wide);
             }
+            // ... and the widest one through the serde bridge
+            forms.push(*serde_forms.last().unwrap());
+        } else {
+            forms.extend(serde_forms);
         }
         for f in forms {
             // the literal spelling of -2^127 is `-(2^127)`, i.e. the unary-minus defect listed in
@@ -583,6 +603,10 @@ pub fn replay_case(j: &J) -> Option<Failure> {
             "i64" => "i64",
             "u64" => "u64",
             "i128" => "i128",
+            "serde_i64" => "serde_i64",
+            "serde_u64" => "serde_u64",
+            "serde_i128" => "serde_i128",
+            "serde_u128" => "serde_u128",
             _ => "u128",
         }
     };
